@@ -260,6 +260,11 @@ def make_types():
                  "ReadTimeout", "connectionLost", "AuthTimeout", "forbidConnection", "Authority",
                  "Timeou", "Xx"):
         add(type(name, (Exception,), {}))
+    # the *type name* carries no keyword; the module path / enclosing class does
+    for mod, qual in (("acme.connection_pool", "Oddball"), ("acme.auth.transport", "Oddball"),
+                      ("plain", "AuthClient.Oddball"), ("acme.permission", "Forbidder.Xx")):
+        add(type("Oddball" if qual.endswith("Oddball") else "Xx", (Exception,),
+                 {"__module__": mod, "__qualname__": qual}))
     return T
 
 
